@@ -283,6 +283,31 @@ def check(run):
                 det = str(e)
     run.ob("R4-labels", "decoders.network.normalize_path/root-preserved", ok_root, w(pops[0]) if pops else w(np_.node),
            "a '..' segment cancels the nearest remaining segment but never the root of an absolute path", det, mech="exhaustive evaluation of the guard over the shapes of the segment stack")
+    # the stack of kept segments changes only inside the loop over the segments (push of the segment itself, pop for '..'): anything
+    # pushed or dropped afterwards alters both the joined value and the "a segment was removed" comparison
+    if len(pops) == 1 and isinstance(pops[0].func.value, ast.Name):
+        stk_n = pops[0].func.value.id
+        loop_ = next((p for p in common.parents(pops[0]) if isinstance(p, ast.For)), None)
+        muts = []
+        for n in own_nodes(np_.node):
+            if isinstance(n, ast.Call) and isinstance(n.func, ast.Attribute) and common.is_name(n.func.value, stk_n) and \
+                    n.func.attr in ("append", "pop", "extend", "insert", "remove", "clear", "reverse", "sort"):
+                muts.append(n)
+            elif isinstance(n, ast.AugAssign) and common.is_name(n.target, stk_n):
+                muts.append(n)
+            elif isinstance(n, ast.Assign) and any(common.is_name(t, stk_n) or (isinstance(t, ast.Subscript) and common.is_name(t.value, stk_n)) for t in n.targets):
+                if not (isinstance(n.value, ast.List) and not n.value.elts):
+                    muts.append(n)
+            elif isinstance(n, ast.AnnAssign) and common.is_name(n.target, stk_n) and n.value is not None and not (isinstance(n.value, ast.List) and not n.value.elts):
+                muts.append(n)
+            elif isinstance(n, ast.Delete) and any(isinstance(t, ast.Subscript) and common.is_name(t.value, stk_n) for t in n.targets):
+                muts.append(n)
+        outside = [m for m in muts if loop_ is None or loop_ not in common.parents(m)]
+        pushes = [m for m in muts if isinstance(m, ast.Call) and m.func.attr == "append"]
+        push_ok = loop_ is not None and isinstance(loop_.target, ast.Name) and bool(pushes) and all(len(m.args) == 1 and common.is_name(m.args[0], loop_.target.id) for m in pushes)
+        run.ob("R4-labels", "decoders.network.normalize_path/stack-changes-inside-the-segment-loop", not outside and push_ok, w(outside[0]) if outside else w(np_.node),
+               "the kept-segment stack is only changed inside the loop over the segments, and what is pushed is the segment itself",
+               (f"`{norm_src(outside[0])}` changes `{stk_n}` outside the loop" if outside else "a push does not push the loop's segment"), mech="mutation census of the stack variable")
     # windows dotpath label
     fw = prog.fn("decoders.path.find_windows_path")
     pm = fw.module
